@@ -200,7 +200,7 @@ void BusModel::hello(int c, const std::string& unique, uint32_t serial, Out& out
 }
 
 int BusModel::names_held(int c) const {
-  int n = 0;
+  int n = conns[c].registered ? 1 : 0;   // [D test/dbus-daemon.c] "the unique name is a name too"
   for (auto& kv : q) for (auto& o : kv.second) if (o.conn == c) n++;
   return n;
 }
